@@ -130,8 +130,9 @@ where
       let show? (o : Option Bool) := match o with | some b => toString b | none => "panic"
       match excl with
       | none => show? (inc k (leafOf k))
-      | some none => show? (inc k defaultLeaf)
+      | some none => if len == 0 then toString r.isEmpty else show? (inc k defaultLeaf)
       | some (some pk) =>
+        if pk = k then "false" else
         match inc pk (leafOf pk) with
         | none => "panic"
         | some false => "false"
